@@ -551,6 +551,13 @@ def _compare_fields(v, f, p, q, clause):
             exp = fl.expect(f)
         elif fl.check and zero_like(given):
             exp = observed(fl.kind, getattr(p, fl.attr))  # value the library computed at construction time
+        elif fl.kind == "crc8" and isinstance(given, int):
+            # an integer check value is stored as 8 bits in the library's own bit order (LSB first since the crc_ok repair,
+            # MSB first before): the statement only asks that the decoded field equals the built one - and the built one
+            # must still be the given number in one of the two orders
+            exp = observed(fl.kind, getattr(p, fl.attr))
+            if exp not in (format(given, "08b"), format(given, "08b")[::-1]):
+                raise Fail("constructor_keeps_field", exp, format(given, "08b") + " (either bit order)", klass=f"{v.name}.{fl.attr}")
         else:
             exp = expected(fl.kind, given)
         if not hasattr(q, fl.attr):
